@@ -37,6 +37,10 @@ C = {
          "never-issued and extreme ids with unique nonces so routing is unambiguous.", TRUST, "history monitor + nonce routing", "5/C06"),
  "C07": ("At every non-failing step the peer is re-run with the merged data as previous and each of b, a, c, nothing as current; "
          "trace must be unchanged, no requests, no next peers.", TRUST, "idempotence re-execution monitor", "5/C07"),
+ "C08": ("Order/grouping differential on real interpreter runs: the distinct data of each generated history are merged at an observer in all "
+         "permutations (or 16 random orders), through a second observer in random groupings, and at a participating peer; knowledge (result ids "
+         "with multiplicity and content) must agree, traces must agree up to senders for stream-free scripts, state multisets up to generations otherwise.",
+         TRUST, "merge-order differential on real runs", "5/C08"),
  "C09": ("Per-run conservation: result ids (calls, failed calls, canons) of the output dominate those of both inputs with the "
          "same content.", TRUST, "online conservation monitor", "5/C09"),
  "C10": ("Independent well-formedness walker over every produced trace (par coverage, nesting, fold lore partition, value "
@@ -85,7 +89,6 @@ C = {
 }
 
 NOT_BUILT = {
- "C08": "not claimed: the order/grouping differential monitor (DESIGN 5/C08) was not built in the time available; no check exists, nothing is asserted",
  "C14": "not claimed: the forged-result fault enumeration (DESIGN 5/C14) was not built in the time available (the tamper module is used by C01 only for crash detection)",
  "C15": "not claimed: the incompatible-versions fault enumeration (DESIGN 5/C15) was not built in the time available",
 }
